@@ -76,8 +76,8 @@ theorem applyRes_inProg (cfg : Cfg) (pol : Policy) (step : Nat) (tickEv : Ev) (d
     simp only [applyRes]
     split
     · simp
-    · simp
-    · split
+    all_goals
+      split
       · split <;> simp
       · simp
   | addCollected buf ev =>
